@@ -19,7 +19,7 @@ import (
 func init() {
 	Registry["C15"] = RunC15
 	Metas["C15"] = Meta{
-		Rule: "episode = 2..5 struct types built at run time with reflect.StructOf (1..6 fields; kinds string/int/int64/uint8/bool/float64, pointers and slices; any subset of path/form/query/cookie/header/json tags; default; required) and requests placing values in subsets of the tagged sources; 2..4 tasks bind sequences of (type, request) pairs on ONE shared binder with yield points after the decoder-cache miss and before the cache store, so concurrent first uses of a type both miss, build and store in either order while hits of other types interleave; Bind / BindQuery / BindHeader / BindPath / BindForm (separate caches). Oracle: each result (bound value or error class) equals the result of a brand-new binder used alone (cold), and equals a small reference binder for the modelled field family. Non-trivial: >= 2 tasks were inside the cache-miss path of the same type at once, or a warm hit followed a cold miss of the same type in another task; distinct = abstract signature (type shapes, order of miss/store/hit events by task). Added later: defaults on pointer and slice fields, pointer/slice fields of narrow integer types with out-of-range texts (range errors in the reference model), and a scheduling point after every text decode (hook H5) so that binds interleave inside Decode, not only around the cache.",
+		Rule: "episode = 2..5 struct types built at run time with reflect.StructOf (1..6 fields; kinds string/int/int64/uint8/bool/float64, pointers and slices; any subset of path/form/query/cookie/header/json tags; default; required) and requests placing values in subsets of the tagged sources; 2..4 tasks bind sequences of (type, request) pairs on ONE shared binder with yield points after the decoder-cache miss and before the cache store, so concurrent first uses of a type both miss, build and store in either order while hits of other types interleave; Bind / BindQuery / BindHeader / BindPath / BindForm (separate caches). Oracle: each result (bound value or error class) equals the result of a brand-new binder used alone (cold), and equals a small reference binder for the modelled field family. Non-trivial: >= 2 tasks were inside the cache-miss path of the same type at once, or a warm hit followed a cold miss of the same type in another task; distinct = abstract signature (type shapes, order of miss/store/hit events by task). Added later: defaults on pointer and slice fields, pointer/slice fields of narrow integer types with out-of-range texts (range errors in the reference model), and a scheduling point after every text decode (hook H5) so that binds interleave inside Decode, not only around the cache. Later still: a required tag in front of optional ones, odd integer texts, and - one episode in three - a scheduling point in front of every statement of the decoder construction (inserted yields; DESIGN 8).",
 		Real: []string{"binding.defaultBinder.bindTag/bindTagWithValidate/tagCache (sync.Map per tag kind)", "decoder.GetReqDecoder/getFieldDecoder, tag lookup, getters, base/slice/text decoders", "preBindBody (encoding/json instead of sonic in this build)"},
 		Stub: []string{"JSON library: encoding/json via the repository's stdjson build tag (sonic does not compile on the toolchain that provides testing/synctest)", "no network, no clock involved"},
 		Assumptions: []string{
